@@ -189,3 +189,170 @@ Proof.
   destruct (skip_string_v (S (length (w ++ 34 :: body))) body) as [r1|e1|] eqn:ES; cbn [bind] in E; try discriminate.
   apply skip_string_v_terminated in ES; [congruence|]. rewrite app_length. cbn [length]. lia.
 Qed.
+
+(* ---- completeness of advance_string_validate on strict RFC 8259 string bodies --------------------------------
+   (no control characters, every escape one of the eight single-character ones or u + 4 hex digits): accepted
+   with exactly the body, wherever the vector rounds fall and for every fuel *)
+
+Lemma simple_escape_plain : forall x, simple_escape x = true -> is_cchar x = false.
+Proof.
+  intros x H. unfold simple_escape in H. repeat rewrite orb_true_iff in H. repeat rewrite N.eqb_eq in H.
+  unfold is_cchar. apply N.ltb_ge. lia.
+Qed.
+
+Lemma hex_not_cchar : forall c, is_hex c = true -> is_cchar c = false.
+Proof.
+  intros c H. unfold is_hex, is_digit in H. repeat rewrite orb_true_iff in H. repeat rewrite andb_true_iff in H.
+  repeat rewrite N.leb_le in H. unfold is_cchar. apply N.ltb_ge. lia.
+Qed.
+
+Lemma strict_nocc : forall b, strict_body b -> existsb is_cchar b = false.
+Proof.
+  induction 1; cbn [existsb]; auto.
+  - rewrite IHstrict_body, orb_false_r. unfold is_cchar. apply N.ltb_ge. lia.
+  - rewrite IHstrict_body, (simple_escape_plain _ H). reflexivity.
+  - rewrite IHstrict_body, (hex_not_cchar _ H), (hex_not_cchar _ H0), (hex_not_cchar _ H1), (hex_not_cchar _ H2). reflexivity.
+Qed.
+
+Lemma sbody_open_end : forall b, sbody b -> open_end b = Some false.
+Proof. induction 1; scan_case; auto. Qed.
+
+Lemma open_end_prefix : forall p q c, open_end (p ++ q) = Some c -> exists c', open_end p = Some c'.
+Proof. intros p q c H. rewrite open_end_app in H. destruct (open_end p); [eauto|discriminate]. Qed.
+
+Lemma block_scan0_app : forall x y c, open_end x = Some c -> block_scan0 (x ++ y) = block_scan c y.
+Proof.
+  induction x using scan_ind; intros y c0 HH; cbn [app]; revert HH; scan_case; intros HH; try discriminate; auto.
+  - inversion HH. reflexivity.
+  - inversion HH. destruct y; reflexivity.
+Qed.
+
+Lemma block_scan_app : forall cr x y c, open_end_c cr x = Some c -> block_scan cr (x ++ y) = block_scan c y.
+Proof.
+  intros [|] x y c H; cbn [open_end_c block_scan] in *.
+  - destruct x as [|a x]; cbn [app].
+    + inversion H. reflexivity.
+    + apply block_scan0_app; auto.
+  - apply block_scan0_app; auto.
+Qed.
+
+Lemma block_scan_none_of : forall cr blk c, open_end_c cr blk = Some c -> block_scan cr blk = BNone c.
+Proof.
+  intros cr blk c H. rewrite <- (app_nil_r blk). rewrite (block_scan_app cr blk [] c H).
+  destruct c; reflexivity.
+Qed.
+
+(* scalar tail on a suffix of a strict body: b = p ++ x, p left the scan with carry cr *)
+Lemma plain_step : forall c t, (c =? 34) = false -> (c =? 92) = false -> is_cchar c = false ->
+  string_tail_v (c :: t) = string_tail_v t.
+Proof. intros c t A B C. cbn [string_tail_v]. rewrite A, B, C. reflexivity. Qed.
+
+Lemma hex_step : forall c t, is_hex c = true -> string_tail_v (c :: t) = string_tail_v t.
+Proof. intros c t H. destruct (hex_plain _ H). apply plain_step; auto. apply hex_not_cchar; auto. Qed.
+
+Lemma string_tail_v_strict : forall b r, strict_body b -> string_tail_v (b ++ 34 :: r) = SOk r.
+Proof.
+  induction 1; cbn [app].
+  - cbn [string_tail_v]. reflexivity.
+  - rewrite plain_step; auto; try (apply N.eqb_neq; auto). unfold is_cchar. apply N.ltb_ge. lia.
+  - cbn [string_tail_v]. change (92 =? 34) with false. change (92 =? 92) with true. cbv iota. rewrite H. auto.
+  - cbn [string_tail_v]. change (92 =? 34) with false. change (92 =? 92) with true. cbv iota.
+    change (simple_escape 117) with false. change (117 =? 117) with true. cbv iota.
+    rewrite H, H0, H1, H2. cbn [andb]. auto.
+Qed.
+
+Lemma carry_tail_v_strict : forall b r, strict_body b -> forall p x cr, b = p ++ x -> open_end p = Some cr ->
+  carry_tail_v cr (x ++ 34 :: r) = SOk r.
+Proof.
+  induction 1; intros p xs cr E O.
+  - destruct p; [|discriminate]. destruct xs; [|discriminate]. cbn in O. inversion O; subst. reflexivity.
+  - destruct p as [|a p].
+    + cbn [app] in E. subst xs. cbn in O. inversion O; subst. cbn [carry_tail_v].
+      apply (string_tail_v_strict (c :: b)). apply stb_char; auto.
+    + cbn [app] in E. inversion E; subst a. revert O. scan_case. intros O. eapply IHstrict_body; eauto.
+  - destruct p as [|a [|a2 p]].
+    + cbn [app] in E. subst xs. cbn in O. inversion O; subst. cbn [carry_tail_v].
+      apply (string_tail_v_strict (92 :: x :: b)). apply stb_esc; auto.
+    + cbn [app] in E. inversion E; subst. cbn in O. inversion O; subst. cbn [carry_tail_v app].
+      apply string_tail_v_strict; auto.
+    + cbn [app] in E. inversion E; subst. revert O. scan_case. intros O. eapply IHstrict_body; eauto.
+  - (* 92 117 h1 h2 h3 h4 b : the split may fall anywhere inside the escape *)
+    destruct (hex_plain _ H) as [A1 B1], (hex_plain _ H0) as [A2 B2], (hex_plain _ H1) as [A3 B3], (hex_plain _ H2) as [A4 B4].
+    assert (S0 : string_tail_v (b ++ 34 :: r) = SOk r) by (apply string_tail_v_strict; auto).
+    destruct p as [|a0 [|a1 [|a2 [|a3 [|a4 [|a5 p]]]]]]; cbn [app] in E; inversion E; subst; try clear E.
+    + cbn in O. inversion O; subst. cbn [carry_tail_v].
+      apply (string_tail_v_strict (92 :: 117 :: h1 :: h2 :: h3 :: h4 :: b)). apply stb_u; auto.
+    + cbn in O. inversion O; subst. cbn [carry_tail_v app]. rewrite !hex_step; auto.
+    + cbn in O. inversion O; subst. cbn [carry_tail_v app]. rewrite !hex_step; auto.
+    + cbn in O. rewrite ?A1, ?B1, ?A2, ?B2, ?A3, ?B3, ?A4, ?B4 in O. inversion O; subst. cbn [carry_tail_v app]. rewrite ?hex_step; auto.
+    + cbn in O. rewrite ?A1, ?B1, ?A2, ?B2, ?A3, ?B3, ?A4, ?B4 in O. inversion O; subst. cbn [carry_tail_v app]. rewrite ?hex_step; auto.
+    + cbn in O. rewrite ?A1, ?B1, ?A2, ?B2, ?A3, ?B3, ?A4, ?B4 in O. inversion O; subst. cbn [carry_tail_v app]. rewrite ?hex_step; auto.
+    + cbn [open_end] in O. change (92 =? 34) with false in O. change (92 =? 92) with true in O. cbv iota in O.
+      cbn [open_end] in O. rewrite ?A1, ?B1, ?A2, ?B2, ?A3, ?B3, ?A4, ?B4 in O. eapply IHstrict_body; eauto.
+Qed.
+
+(* state of the rounds: what is left is a suffix x of the body, then the closing quote and r *)
+Definition st_ok (b r : list N) (cr : bool) (s : list N) : Prop :=
+  exists p x, b = p ++ x /\ s = x ++ 34 :: r /\ open_end p = Some cr.
+
+Lemma existsb_sub : forall (p x q : list N), existsb is_cchar (p ++ x ++ q) = false -> existsb is_cchar x = false.
+Proof. intros p x q H. rewrite !existsb_app in H. repeat (apply orb_false_iff in H; destruct H as [? H]). auto. Qed.
+
+Lemma round_ok : forall b r cr s n blk rest, strict_body b -> st_ok b r cr s ->
+  split_at n s = Some (blk, rest) ->
+  (exists after, block_scan_v cr blk = VQuote after /\ after ++ rest = r) \/
+  (exists cr', block_scan_v cr blk = VNone cr' /\ st_ok b r cr' rest).
+Proof.
+  intros b r cr s n blk rest Hb (p & x & Eb & Es & O) E.
+  apply split_at_spec in E. destruct E as [E _]. rewrite Es in E.
+  pose proof (strict_body_sbody _ Hb) as Sb. pose proof (sbody_open_end _ Sb) as Ob.
+  pose proof (strict_nocc _ Hb) as NC.
+  symmetry in E. apply app_eq_app in E. destruct E as [l [[E1 E2]|[E1 E2]]].
+  - (* blk = x ++ l *)
+    destruct l as [|q l].
+    + (* the block is exactly x: no quote in it *)
+      right. rewrite app_nil_r in E1. subst blk. cbn [app] in E2. subst rest.
+      assert (OC : open_end_c cr x = Some false).
+      { rewrite Eb, open_end_app, O in Ob. exact Ob. }
+      exists false. split.
+      * unfold block_scan_v. rewrite (block_scan_none_of _ _ _ OC).
+        rewrite Eb in NC. rewrite <- (app_nil_r x) in NC. rewrite (existsb_sub p x [] NC). reflexivity.
+      * exists b, []. rewrite app_nil_r. repeat split; auto.
+    + (* the closing quote is in the block *)
+      left. inversion E2; subst q. subst blk. exists l. split; [|reflexivity].
+      assert (OC : open_end_c cr x = Some false).
+      { rewrite Eb, open_end_app, O in Ob. exact Ob. }
+      unfold block_scan_v. rewrite (block_scan_app cr x (34 :: l) false OC). cbn [block_scan block_scan0].
+      change (34 =? 34) with true. cbv iota.
+      replace (Nat.sub (length (x ++ 34 :: l)) (S (length l))) with (length x) by (rewrite app_length; cbn [length]; lia).
+      rewrite firstn_app_exact.
+      rewrite Eb in NC. rewrite <- (app_nil_r x) in NC. rewrite (existsb_sub p x [] NC). reflexivity.
+  - (* x = blk ++ l : the block lies inside the body *)
+    right. subst x rest.
+    assert (exists c', open_end (p ++ blk) = Some c') as [c' Oc].
+    { apply (open_end_prefix (p ++ blk) l false). rewrite <- app_assoc, <- Eb. exact Ob. }
+    assert (OC : open_end_c cr blk = Some c') by (rewrite open_end_app, O in Oc; exact Oc).
+    exists c'. split.
+    + unfold block_scan_v. rewrite (block_scan_none_of _ _ _ OC).
+      rewrite Eb in NC. rewrite (existsb_sub p blk l NC). reflexivity.
+    + exists (p ++ blk), l. rewrite <- app_assoc. auto.
+Qed.
+
+Theorem advance_string_validate_complete : forall fuel b r, strict_body b ->
+  advance_string_validate fuel (b ++ 34 :: r) = SOk r.
+Proof.
+  intros fuel b r Hb. unfold advance_string_validate.
+  destruct (b ++ 34 :: r) as [|c0 s0] eqn:Es; [destruct b; discriminate|]. rewrite <- Es.
+  assert (I0 : st_ok b r false (b ++ 34 :: r)) by (exists [], b; auto).
+  (* the 64-byte rounds keep the invariant or find the closing quote *)
+  assert (R : forall f cr s, st_ok b r cr s ->
+            rounds64_v f cr s = inl (SOk r) \/ exists cr' s', rounds64_v f cr s = inr (cr', s') /\ st_ok b r cr' s').
+  { induction f as [|f IH]; intros cr s I; cbn [rounds64_v]; [right; eauto|].
+    destruct (split_at 64 s) as [[blk rest]|] eqn:E; [|right; eauto].
+    destruct (round_ok _ _ _ _ _ _ _ Hb I E) as [(after & -> & <-)|(cr' & -> & I')]; [left; reflexivity|auto]. }
+  destruct (R fuel false _ I0) as [->|(cr & s1 & -> & I1)]; [reflexivity|].
+  assert (T : forall cr s, st_ok b r cr s -> carry_tail_v cr s = SOk r).
+  { intros cr2 s2 (p & x & Eb & -> & O). eapply carry_tail_v_strict; eauto. }
+  destruct (split_at 32 s1) as [[blk rest]|] eqn:E; [|auto].
+  destruct (round_ok _ _ _ _ _ _ _ Hb I1 E) as [(after & -> & <-)|(cr' & -> & I')]; [reflexivity|auto].
+Qed.
